@@ -624,7 +624,28 @@ func (c *Ctx) havocMap(st *State, name string) {
 	st.over[name] = c.fresh1(name+"@h", c.heapSorts[name])
 }
 
-func (c *Ctx) isGhostMap(name string) bool { return strings.HasPrefix(name, "G|") }
+// isGhostMap: heap maps that an un-contracted call does not havoc: ghost fields (they change
+// only through contracts) and fields the contract declares immutable for the duration of
+// the call (opt immutable=T.field,...; listed as an assumption in the evidence).
+func (c *Ctx) isGhostMap(name string) bool {
+	if strings.HasPrefix(name, "G|") {
+		return true
+	}
+	return c.isImmutableMap(name)
+}
+
+func (c *Ctx) isImmutableMap(name string) bool {
+	if c.con != nil {
+		if im := c.con.Opts["immutable"]; im != "" {
+			for _, pat := range strings.Split(im, ",") {
+				if c.assignMatches(strings.TrimSpace(pat), name) {
+					return true
+				}
+			}
+		}
+	}
+	return false
+}
 
 // mergeStates joins predecessor states
 func (c *Ctx) mergeStates(preds []mergePred) *State {
@@ -840,6 +861,7 @@ func (c *Ctx) arrFieldAddr(st types.Type, i int, base string) string {
 }
 
 func (c *Ctx) loadField(st *State, base string, stT types.Type, i int) *Val {
+	c.P.typeByKey[typeKey(stT)] = stT
 	ft := stT.Underlying().(*types.Struct).Field(i).Type()
 	if isStruct(ft) {
 		return c.loadObj(st, c.subAddr(stT, i, base), ft)
@@ -851,6 +873,7 @@ func (c *Ctx) loadField(st *State, base string, stT types.Type, i int) *Val {
 }
 
 func (c *Ctx) storeField(st *State, base string, stT types.Type, i int, v *Val) {
+	c.P.typeByKey[typeKey(stT)] = stT
 	ft := stT.Underlying().(*types.Struct).Field(i).Type()
 	if isStruct(ft) {
 		c.storeObj(st, c.subAddr(stT, i, base), ft, v)
